@@ -27,8 +27,9 @@ GUARD = lambda f: [S("handler-bind"), [[S("condition"), [S("lambda"), [S("c"), S
 BINDERS = ["let", "let*", "lambda", "flet", "labels", "defun", "dotimes"]
 
 
-def scope_program(binders, muts):
-    """binders: 3 names; muts: per level (capture?, set!-before-inner?, set!-after-inner?)"""
+def scope_program(binders, muts, selfref=False):
+    """binders: 3 names; muts: per level (capture?, set!-before-inner?, set!-after-inner?);
+    selfref: the expression that initialises each binding reads the OUTER binding of the same name"""
     forms = [[S("set"), Q(S("x")), 0], [S("set"), Q(S("clos")), []]]
     body = [S("probe"), Q(S("innermost")), S("x")]
     calls = []
@@ -44,7 +45,7 @@ def scope_program(binders, muts):
         if post:
             inner.append([S("set!"), S("x"), [S("+"), S("x"), 100 * lvl]])
         inner.append([S("probe"), Q(S("level")), lvl, S("x")] + ([[S("funcall"), Q(S("c%d" % lvl))]] if cap else []))
-        v = lvl
+        v = [S("+"), S("x"), lvl] if selfref else lvl
         if b == "let":
             body = [S("let"), [[S("x"), v]]] + inner
         elif b == "let*":
@@ -59,7 +60,7 @@ def scope_program(binders, muts):
             forms.append([S("defun"), S("g%d" % lvl), [S("x")], [S("probe"), Q(S("in-defun")), S("x")], S("x")])
             body = [S("let"), [[S("x"), [S("g%d" % lvl), v]]]] + inner
         elif b == "dotimes":
-            body = [S("dotimes"), [S("x"), 2]] + inner
+            body = [S("dotimes"), [S("x"), [S("+"), 2, [S("*"), 0, S("x")]] if selfref else 2]] + inner
         if cap:
             calls.append([S("probe"), Q(S("after")), lvl, GUARD([S("funcall"), Q(S("c%d" % lvl))])])
     forms.append(GUARD(body))
@@ -152,11 +153,27 @@ class Gen:
             return [S("nth"), self.list_(d - 1), r.randrange(3)]        # may be nil: ill-typed uses follow
         return [S("car"), self.list_(d - 1)]
 
+    def num_(self, d):
+        """a numeric expression that may be a float: only + - * and binders, never compared or indexed with"""
+        r = self.rnd
+        if d <= 0 or r.random() < 0.3:
+            return r.choice([0.5, 1.5, -2.5, 2.0, 0.0, r.randrange(-3, 6), 0, S(r.choice(self.ints))])
+        c = r.randrange(6)
+        if c < 3:
+            return [S(r.choice(["+", "-", "*", "*"]))] + [self.num_(d - 1) for _ in range(r.choice([1, 2, 2, 3, 4]))]
+        if c == 3:
+            return [S("let"), [[S("f"), self.num_(d - 1)]], [S(r.choice(["+", "*"])), S("f"), self.num_(d - 1)]]
+        if c == 4:
+            return [S("if"), self.bool_(d - 1), self.num_(d - 1), self.num_(d - 1)]
+        return [[S("lambda"), [S("g")], [S("*"), S("g"), self.num_(d - 1)]], self.num_(d - 1)]
+
     def bool_(self, d):
         r = self.rnd
         if d <= 0:
             return r.choice([S("true"), S("false"), []])
-        c = r.randrange(8)
+        c = r.randrange(9)
+        if c == 8:
+            return [S(r.choice(["float?", "int?", "number?"])), self.num_(d - 1)]
         if c < 2:
             return [S(r.choice(["<", ">", "=", "<=", ">="])), self.int_(d - 1), self.int_(d - 1)]
         if c == 2:
@@ -212,7 +229,7 @@ def random_program(rnd):
              [S("set"), Q(S("ctr")), [S("make-counter")]]]
     for _ in range(rnd.randrange(3, 7)):
         k = rnd.random()
-        e = g.int_(4) if k < 0.4 else g.list_(4) if k < 0.7 else g.bool_(4) if k < 0.85 else g.illtyped(2)
+        e = g.int_(4) if k < 0.3 else g.num_(3) if k < 0.45 else g.list_(4) if k < 0.7 else g.bool_(4) if k < 0.85 else g.illtyped(2)
         if rnd.random() < 0.15:
             e = [S("list"), [S("funcall"), Q(S("ctr"))], e, [S("funcall"), Q(S("ctr"))]]
         forms.append([S("probe"), Q(S("v")), GUARD(e)])
@@ -238,7 +255,7 @@ def _run(V, work, tier):
     # 343 binder nestings x 512 mutation patterns: the nestings are exhaustive, patterns sampled per nesting
     for bs in itertools.product(BINDERS, repeat=3):
         for ms in rnd.sample(list(itertools.product(mutsets, repeat=3)), 16 if thorough else 3):
-            progs_.append(("scope", scope_program(bs, ms)))
+            progs_.append(("scope", scope_program(bs, ms, selfref=rnd.random() < 0.5)))
     for f, names, req, opt, tail in formal_lists(3):
         for nargs in range(0, 5):
             for mode in (("plain", "kw", "badkw") if tail.startswith("key") else ("plain",)):
